@@ -34,6 +34,8 @@ type ConOp struct {
 	M    int    `json:"m,omitempty"`
 	Col  string `json:"col,omitempty"`
 	PC   *int   `json:"pc,omitempty"` // child.pc (references parent.code once the second key exists)
+	A    *int   `json:"a,omitempty"`  // child.a, child.b: UNIQUE KEY uab (a, b) - a unique key over two columns, so that
+	B    *int   `json:"b,omitempty"`  // two sides changing one column each of one row produce a key neither of them had
 }
 
 type ConBody struct {
@@ -80,11 +82,17 @@ func (CON) Generate(seed uint64, tier string) *core.Scenario {
 			b.Ops = append(b.Ops, ConOp{S: s, Kind: "pdel", ID: r.Intn(4)})
 		case x < 42:
 			nn := r.Range(0, 3)
-			b.Ops = append(b.Ops, ConOp{S: s, Kind: "cins", ID: r.Intn(6), P: mayNull(4), U: mayNull(4), N: nn, M: r.Range(-1, nn), PC: mayNull(4)})
+			b.Ops = append(b.Ops, ConOp{S: s, Kind: "cins", ID: r.Intn(6), P: mayNull(4), U: mayNull(4), N: nn, M: r.Range(-1, nn), PC: mayNull(4), A: mayNull(2), B: mayNull(2)})
 		case x < 50:
 			b.Ops = append(b.Ops, ConOp{S: s, Kind: "cupd", ID: r.Intn(6), Col: "pid", P: mayNull(4)})
 		case x < 58:
 			b.Ops = append(b.Ops, ConOp{S: s, Kind: "cupd", ID: r.Intn(6), Col: "u", U: mayNull(4)})
+		case x < 61:
+			if r.Chance(1, 2) {
+				b.Ops = append(b.Ops, ConOp{S: s, Kind: "cupd", ID: r.Intn(6), Col: "a", A: mayNull(2)})
+			} else {
+				b.Ops = append(b.Ops, ConOp{S: s, Kind: "cupd", ID: r.Intn(6), Col: "b", B: mayNull(2)})
+			}
 		case x < 64:
 			b.Ops = append(b.Ops, ConOp{S: s, Kind: "cupd", ID: r.Intn(6), Col: "n", N: r.Range(-1, 3)})
 		case x < 70:
@@ -109,6 +117,37 @@ func (CON) Generate(seed uint64, tier string) *core.Scenario {
 			b.Ops = append(b.Ops, ConOp{Kind: "restart"})
 		}
 	}
+	if r.Chance(1, 3) {
+		// a directed piece of workload, spliced in at a random place: two transactions change one
+		// column each of the two-column unique key of one row, and one of them also gives another row
+		// the key the first row ends up with after the cell-wise merge - every statement is legal in
+		// its own snapshot, the combination is not
+		s1, s2 := 0, 1
+		if r.Chance(1, 2) {
+			s1, s2 = 1, 0
+		}
+		rid, xid := r.Intn(6), r.Intn(6)
+		for xid == rid {
+			xid = r.Intn(6)
+		}
+		va, vb := r.Intn(2), r.Intn(2)
+		seq := []ConOp{
+			{S: s1, Kind: "commit"}, {S: s2, Kind: "commit"},
+			{S: s1, Kind: "cdel", ID: rid}, {S: s1, Kind: "cdel", ID: xid},
+			{S: s1, Kind: "cins", ID: rid, N: 1, M: 0, A: ip(1 - va), B: ip(1 - vb)}, {S: s1, Kind: "commit"},
+			{S: s1, Kind: "begin"}, {S: s2, Kind: "begin"},
+			{S: s1, Kind: "cupd", ID: rid, Col: "a", A: ip(va)},
+			{S: s2, Kind: "cupd", ID: rid, Col: "b", B: ip(vb)},
+			{S: s2, Kind: "cins", ID: xid, N: 1, M: 0, A: ip(va), B: ip(vb)},
+		}
+		if r.Chance(1, 2) {
+			seq = append(seq, ConOp{S: s1, Kind: "commit"}, ConOp{S: s2, Kind: "commit"})
+		} else {
+			seq = append(seq, ConOp{S: s2, Kind: "commit"}, ConOp{S: s1, Kind: "commit"})
+		}
+		at := r.Intn(len(b.Ops) + 1)
+		b.Ops = append(b.Ops[:at], append(seq, b.Ops[at:]...)...)
+	}
 	for s := 0; s < b.NSess; s++ {
 		b.Ops = append(b.Ops, ConOp{S: s, Kind: "commit"})
 	}
@@ -122,7 +161,7 @@ type conViol struct {
 }
 
 // evalConstraints re-checks the declared constraints over full scans of both tables.
-// parent rows: id, v, code; child rows: id, pid, u, n, m, pc. fk2: child.pc -> parent.code is declared.
+// parent rows: id, v, code; child rows: id, pid, u, n, m, pc, a, b. fk2: child.pc -> parent.code is declared.
 func evalConstraints(parent, child [][]string, fk2 bool) []conViol {
 	var out []conViol
 	pids := map[string]int{}
@@ -145,6 +184,10 @@ func evalConstraints(parent, child [][]string, fk2 bool) []conViol {
 		ids[r[0]]++
 		if r[2] != "NULL" {
 			us[r[2]] = append(us[r[2]], r[0])
+		}
+		if len(r) > 7 && r[6] != "NULL" && r[7] != "NULL" {
+			k := "ab:" + r[6] + "," + r[7]
+			us[k] = append(us[k], r[0])
 		}
 		if r[1] != "NULL" && pids[r[1]] == 0 {
 			out = append(out, conViol{"foreign key", r[0]})
@@ -206,7 +249,7 @@ func (CON) Execute(t *testing.T, sc *core.Scenario) *core.Result {
 	}
 	for _, q := range []string{
 		"CREATE TABLE parent (id INT PRIMARY KEY, v INT, code INT)",
-		"CREATE TABLE child (id INT PRIMARY KEY, pid INT, u INT, n INT NOT NULL, m INT NOT NULL, pc INT, CONSTRAINT fkp FOREIGN KEY (pid) REFERENCES parent (id), UNIQUE KEY uu (u), CONSTRAINT ck CHECK (n >= m))",
+		"CREATE TABLE child (id INT PRIMARY KEY, pid INT, u INT, n INT NOT NULL, m INT NOT NULL, pc INT, a INT, b INT, CONSTRAINT fkp FOREIGN KEY (pid) REFERENCES parent (id), UNIQUE KEY uu (u), UNIQUE KEY uab (a, b), CONSTRAINT ck CHECK (n >= m))",
 		"INSERT INTO parent VALUES (0, 0, 0), (1, 0, 1)",
 		"CALL dolt_commit('-Am', 'schema')",
 		"CALL dolt_branch('b1')",
@@ -255,14 +298,14 @@ func (CON) Execute(t *testing.T, sc *core.Scenario) *core.Result {
 	// check evaluates the constraints on what reader sees of suffix (e.g. " AS OF 'h'").
 	check := func(reader *Sess, suffix, where string, step int) {
 		p, err1 := reader.Exec(ctx, "SELECT id, v, code FROM parent"+suffix)
-		c, err2 := reader.Exec(ctx, "SELECT id, pid, u, n, m, pc FROM child"+suffix)
+		c, err2 := reader.Exec(ctx, "SELECT id, pid, u, n, m, pc, a, b FROM child"+suffix)
 		if err1 != nil || err2 != nil {
 			res.Probe("evaluator_read_error")
 			return
 		}
 		res.Evaluations++
 		for _, v := range evalConstraints(p, c, fk2Main && reader != bs && suffix == "") {
-			res.Violate("committed-data-violates-constraint", "constraint="+v.Kind, step, "%s: committed tables violate %s (child/row %s)\nparent:\n%s\nchild (id|pid|u|n|m):\n%s", where, v.Kind, v.ID, indent(rowsKey(p)), indent(rowsKey(c)))
+			res.Violate("committed-data-violates-constraint", "constraint="+v.Kind, step, "%s: committed tables violate %s (child/row %s)\nparent:\n%s\nchild (id|pid|u|n|m|pc|a|b):\n%s", where, v.Kind, v.ID, indent(rowsKey(p)), indent(rowsKey(c)))
 			break
 		}
 	}
@@ -378,7 +421,7 @@ func (CON) Execute(t *testing.T, sc *core.Scenario) *core.Result {
 		case "pdel":
 			q = fmt.Sprintf("DELETE FROM parent WHERE id = %d", op.ID)
 		case "cins":
-			q = fmt.Sprintf("INSERT INTO child VALUES (%d, %s, %s, %d, %d, %s)", op.ID, lit(op.P), lit(op.U), op.N, op.M, lit(op.PC))
+			q = fmt.Sprintf("INSERT INTO child VALUES (%d, %s, %s, %d, %d, %s, %s, %s)", op.ID, lit(op.P), lit(op.U), op.N, op.M, lit(op.PC), lit(op.A), lit(op.B))
 		case "cdel":
 			q = fmt.Sprintf("DELETE FROM child WHERE id = %d", op.ID)
 		case "cupd":
@@ -391,6 +434,10 @@ func (CON) Execute(t *testing.T, sc *core.Scenario) *core.Result {
 				q = fmt.Sprintf("UPDATE child SET n = %d WHERE id = %d", op.N, op.ID)
 			case "pc":
 				q = fmt.Sprintf("UPDATE child SET pc = %s WHERE id = %d", lit(op.PC), op.ID)
+			case "a":
+				q = fmt.Sprintf("UPDATE child SET a = %s WHERE id = %d", lit(op.A), op.ID)
+			case "b":
+				q = fmt.Sprintf("UPDATE child SET b = %s WHERE id = %d", lit(op.B), op.ID)
 			default:
 				q = fmt.Sprintf("UPDATE child SET m = %d WHERE id = %d", op.M, op.ID)
 			}
@@ -427,7 +474,7 @@ func (CON) Execute(t *testing.T, sc *core.Scenario) *core.Result {
 			_, cerr := fm.Exec(ctx, "COMMIT")
 			if merr == nil && cerr == nil {
 				p, err1 := mg.Exec(ctx, "SELECT id, v, code FROM parent")
-				c, err2 := mg.Exec(ctx, "SELECT id, pid, u, n, m, pc FROM child")
+				c, err2 := mg.Exec(ctx, "SELECT id, pid, u, n, m, pc, a, b FROM child")
 				rec, err3 := mg.Exec(ctx, "SELECT violation_type, id FROM dolt_constraint_violations_child")
 				if err3 != nil {
 					rec = nil // the table does not exist when nothing was recorded
@@ -455,7 +502,7 @@ func (CON) Execute(t *testing.T, sc *core.Scenario) *core.Result {
 							}
 						}
 						if !ok {
-							res.Violate("merge-violation-not-recorded", "constraint="+v.Kind, len(b.Ops), "after the forced dolt_merge('b1') the committed tables violate %s at child row(s) %s, but dolt_constraint_violations_child lists only\n%s\nparent:\n%s\nchild (id|pid|u|n|m):\n%s", v.Kind, v.ID, indent(rowsKey(rec)), indent(rowsKey(p)), indent(rowsKey(c)))
+							res.Violate("merge-violation-not-recorded", "constraint="+v.Kind, len(b.Ops), "after the forced dolt_merge('b1') the committed tables violate %s at child row(s) %s, but dolt_constraint_violations_child lists only\n%s\nparent:\n%s\nchild (id|pid|u|n|m|pc|a|b):\n%s", v.Kind, v.ID, indent(rowsKey(rec)), indent(rowsKey(p)), indent(rowsKey(c)))
 							break
 						}
 					}
